@@ -291,15 +291,30 @@ func (w *c15pWorld) settle(what string) (hung bool) {
 	w.t.Helper()
 	deadline := time.Now().Add(c15pPatience)
 	stable := 0
+	var lowSince time.Time
 	for {
 		running, _ := w.sched.state()
-		if running == 0 && runtime.NumGoroutine() == w.base+len(w.sched.real.ListJobs(w.ctx)) {
+		have, want := runtime.NumGoroutine(), w.base+len(w.sched.real.ListJobs(w.ctx))
+		if running == 0 && have == want {
 			stable++
 			if stable >= 3 {
 				return false
 			}
 		} else {
 			stable = 0
+		}
+		// Fewer goroutines than the base and the scheduler's jobs account for: a goroutine of the construction
+		// phase (e.g. the wallet's account iterator) was still winding down when the base was taken.  Nothing
+		// the controller starts can make the count too low, so the base is corrected.
+		if running == 0 && have < want {
+			if lowSince.IsZero() {
+				lowSince = time.Now()
+			} else if time.Since(lowSince) > 500*time.Millisecond {
+				w.base -= want - have
+				lowSince = time.Time{}
+			}
+		} else {
+			lowSince = time.Time{}
 		}
 		if time.Now().After(deadline) {
 			if running > 0 {
@@ -313,6 +328,21 @@ func (w *c15pWorld) settle(what string) (hung bool) {
 		runtime.Gosched()
 		time.Sleep(100 * time.Microsecond)
 	}
+}
+
+// c15pStableGoroutines is the goroutine count once it has not changed for 30 ms (goroutines of the construction
+// phase have wound down).
+func c15pStableGoroutines() int {
+	n, since := runtime.NumGoroutine(), time.Now()
+	deadline := time.Now().Add(5 * time.Second)
+	for time.Since(since) < 30*time.Millisecond && time.Now().Before(deadline) {
+		runtime.Gosched()
+		time.Sleep(time.Millisecond)
+		if m := runtime.NumGoroutine(); m != n {
+			n, since = m, time.Now()
+		}
+	}
+	return n
 }
 
 func (w *c15pWorld) prepSlots() []uint64 {
@@ -428,7 +458,7 @@ func c15pBuild(t *testing.T, u *c13support.Universe, dir string, st c15pStep) *c
 		t.Fatalf("c15 paths: sync committee messenger New: %v", err)
 	}
 
-	w.base = runtime.NumGoroutine()
+	w.base = c15pStableGoroutines()
 	w.svc, err = New(ctx,
 		WithLogLevel(zerolog.Disabled),
 		WithMonitor(monitor),
